@@ -16,12 +16,14 @@ pub struct Case {
   pub p: u64,
   pub private: bool,
   pub announce: bool,
+  /// other tracker-related options that are *not* `--announce`: tiers, DHT nodes (they must not lift private-trackerless)
+  pub tier: bool,
 }
 
 impl Case {
   fn to_json(&self) -> Value {
     json!({"allow_mask": self.mask, "allow": LINTS.iter().enumerate().filter(|(i,_)| self.mask >> i & 1 == 1).map(|(_,l)| *l).collect::<Vec<_>>(),
-           "piece_length": self.p.to_string(), "private": self.private, "announce": self.announce})
+           "piece_length": self.p.to_string(), "private": self.private, "announce": self.announce, "announce_tier_and_node": self.tier})
   }
   fn from_json(v: &Value) -> Option<Case> {
     Some(Case {
@@ -29,6 +31,7 @@ impl Case {
       p: v.get("piece_length")?.as_str()?.parse().ok()?,
       private: v.get("private")?.as_bool()?,
       announce: v.get("announce")?.as_bool()?,
+      tier: v.get("announce_tier_and_node").and_then(|b| b.as_bool()).unwrap_or(false),
     })
   }
 }
@@ -78,6 +81,9 @@ fn observe(ctx: &Ctx, c: &Case) -> Obs {
   if c.announce {
     args.push("--announce".into());
     args.push("http://tracker.example/announce".into());
+  }
+  if c.tier {
+    args.extend(["--announce-tier".to_string(), "http://a.example/announce,udp://b.example:6969".into(), "--node".into(), "router.example.com:6881".into()]);
   }
   let out = Cmd::args_owned(&ctx.imdl, args).cwd(&sb.root).run();
   let torrent = std::fs::read(sb.path("out.torrent")).ok();
@@ -149,8 +155,8 @@ fn judge(c: &Case, o: &Obs, model_ans: &str) -> (Option<String>, Option<String>)
 
 pub fn run(ctx: &Ctx) -> Report {
   let mut report = Report::new(
-    "complete enumeration: 8 allow subsets x piece lengths on both sides of every threshold x 4 private/announce combinations, on the real binary; \
-     non-trivial = at least one rule violated or a lint allowed; distinct by (mask,p,private,announce)",
+    "complete enumeration: 8 allow subsets x piece lengths on both sides of every threshold x 4 private/announce combinations (and, for three piece lengths, the same with --announce-tier and --node given), on the real binary; \
+     non-trivial = at least one rule violated or a lint allowed; distinct by (mask,p,private,announce,tier)",
   );
   report.correspondences.push("C14.cli: `imdl torrent create` accept/reject, recorded piece length, named lint = Imdlv.Lints.createDecision".into());
   let mut cases = Vec::new();
@@ -167,7 +173,10 @@ pub fn run(ctx: &Ctx) -> Report {
     for mask in 0..8 {
       for &p in &ps {
         for pa in 0..4 {
-          cases.push(Case { mask, p, private: pa & 1 == 1, announce: pa & 2 == 2 });
+          cases.push(Case { mask, p, private: pa & 1 == 1, announce: pa & 2 == 2, tier: false });
+          if [16384u64, 1000, 16385].contains(&p) {
+            cases.push(Case { mask, p, private: pa & 1 == 1, announce: pa & 2 == 2, tier: true });
+          }
         }
       }
     }
